@@ -11,10 +11,24 @@ Proved for ALL families of per-architecture universes:
                        (`resolvePackage_available`).
 The property is FALSE for install_if additions, which are appended without passing the filter
 (F14a, witness below, replayed on the Go code from corpus/multiarch/F14a.json).
+
+For the WHOLE resolution the driver executes (`resolve`, every Cfg / world / family; invariants through
+`depLoop`, `getDeps`, `getPackageWithDependencies`, `resolve.go` in `Lemmas/ResolverAvail.lean`):
+* `resolve_avoids_dq`          no member of a resolution that did not raise ghost flag "F02b" (install_if
+                               expansion) is in the up-front set `dq0`;
+* `resolve_avoids_dq_or_installIf`  without any flag hypothesis: a member is outside `dq0` or carries an
+                               install_if rule (and "F02b" was raised);
+* `resolve_available_partial`  two or more architectures, no "F02b": the driver's oracle
+                               `firstUnavailable archs self r.install` is `none`, for every `self`;
+* `unavailable_is_F14a`        whatever the oracle reports on the model's own output carries an install_if
+                               rule, so the driver's class is "F14a", never "unlisted";
+* `resolve_available`          the full statement (a `def`), `not_resolve_available` from the F14a witness;
+* `single_arch_unaffected`     with one architecture `resolve` runs exactly as with the empty set.
 -/
 import Apko.Model.Resolver
 import Apko.Proofs.C02
 import Apko.Generated.Resolver
+import Apko.Proofs.Lemmas.ResolverAvail
 
 namespace Apko.C14
 open Apko Apko.Resolver
@@ -110,5 +124,184 @@ theorem F14a_witness :
 example : disqualifyDifference
     [("a".toList, [⟨[], [], [C02.mk 0 "lib" "1" [] [] [], C02.mk 1 "lib" "2" [] [] []]⟩]),
      ("b".toList, [⟨[], [], [C02.mk 0 "lib" "1" [] [] []]⟩])] "a".toList = [1] := by decide
+
+/-! ## the whole resolution
+
+`resolve c world dq0` is what the driver executes for every architecture `self` with
+`dq0 = disqualifyDifference archs self` (`Driver/Resolver.lean`, ops `r.avail` / `r.corr*`). -/
+
+/-- T `resolve_avoids_dq`: for every configuration, world and up-front set `dq0` — no member of a successful
+resolution is in `dq0`, provided the install_if expansion appended nothing (ghost flag "F02b" of the model:
+`getPackageWithDependencies` raises it exactly when the install_if scan lengthened the list). -/
+theorem resolve_avoids_dq (c : Cfg) (w : List Text) (dq0 : List Nat) (r : Resolution)
+    (h : resolve c w dq0 = .ok r) (hf : "F02b" ∉ r.flags) :
+    ∀ p ∈ r.install, dq0.contains p.id = false := by
+  intro p hp
+  rcases resolve_avoids c w dq0 r h p hp with h1 | ⟨h1, _⟩
+  · exact h1
+  · exact absurd h1 hf
+
+/-- T `resolve_avoids_dq_or_installIf`: with NO hypothesis on the flags — a member of a successful resolution
+is outside `dq0`, or it carries an install_if rule and "F02b" was raised (the install_if path is the only way
+around the candidate filter). -/
+theorem resolve_avoids_dq_or_installIf (c : Cfg) (w : List Text) (dq0 : List Nat) (r : Resolution)
+    (h : resolve c w dq0 = .ok r) :
+    ∀ p ∈ r.install, dq0.contains p.id = false ∨ ("F02b" ∈ r.flags ∧ p.installIf ≠ []) := by
+  intro p hp
+  rcases resolve_avoids c w dq0 r h p hp with h1 | ⟨h1, h2⟩
+  · exact Or.inl h1
+  · exact Or.inr ⟨h1, h2.installIf_ne⟩
+
+/-- the driver's oracle answers `none` iff every member is available on every other architecture -/
+theorem firstUnavailable_none_iff (archs : List (Text × Universe)) (self : Text) (s : List Pkg) :
+    Driver.Resolver.firstUnavailable archs self s = none ↔
+      ∀ p ∈ s, ∀ a other, (a, other) ∈ archs → a ≠ self → availableOn other p = true := by
+  unfold Driver.Resolver.firstUnavailable
+  rw [List.findSome?_eq_none_iff]
+  constructor
+  · intro h p hp a other hm hne
+    have h1 := h p hp
+    simp only [Option.map_eq_none_iff] at h1
+    have h2 := List.find?_eq_none.mp h1 (a, other) hm
+    cases hav : availableOn other p
+    · exfalso
+      apply h2
+      unfold availableOn at hav
+      simp only [Bool.and_eq_true, bne_iff_ne, ne_eq, Bool.not_eq_true']
+      exact ⟨hne, hav⟩
+    · rfl
+  · intro h p hp
+    simp only [Option.map_eq_none_iff]
+    rw [List.find?_eq_none]
+    rintro ⟨a, other⟩ hm
+    simp only [Bool.and_eq_true, bne_iff_ne, ne_eq, Bool.not_eq_true', not_and, Bool.not_eq_false]
+    intro hne
+    exact h p hp a other hm hne
+
+/-- what the driver's oracle reports is a member that is missing on a named other architecture -/
+theorem firstUnavailable_some {archs : List (Text × Universe)} {self : Text} {s : List Pkg} {p : Pkg}
+    {a : Text} (h : Driver.Resolver.firstUnavailable archs self s = some (p, a)) :
+    p ∈ s ∧ ∃ other, (a, other) ∈ archs ∧ a ≠ self ∧ availableOn other p = false := by
+  unfold Driver.Resolver.firstUnavailable at h
+  obtain ⟨q, hq, h1⟩ := List.exists_of_findSome?_eq_some h
+  simp only [Option.map_eq_some_iff] at h1
+  obtain ⟨⟨a', other⟩, hf, he⟩ := h1
+  simp only [Prod.mk.injEq] at he
+  obtain ⟨rfl, rfl⟩ := he
+  have hm := List.mem_of_find?_eq_some hf
+  have hp := List.find?_some hf
+  simp only [Bool.and_eq_true, bne_iff_ne, ne_eq, Bool.not_eq_true'] at hp
+  exact ⟨hq, other, hm, hp.1, hp.2⟩
+
+/-- a package of `self`'s universe outside the cross-architecture set exists everywhere else -/
+theorem available_of_not_dq (archs : List (Text × Universe)) (self : Text) (u : Universe)
+    (hl : archs.length ≠ 1) (hu : lookupT archs self = some u) {p : Pkg} (hp : p ∈ u.all)
+    (hd : (disqualifyDifference archs self).contains p.id = false) :
+    ∀ a other, (a, other) ∈ archs → a ≠ self → availableOn other p = true := by
+  intro a other hm hne
+  cases hav : availableOn other p
+  · exfalso
+    have : p.id ∈ disqualifyDifference archs self :=
+      (dq_spec archs self u hl hu p.id).mpr ⟨p, hp, rfl, a, other, hm, hne, hav⟩
+    simp only [List.contains_eq_mem, decide_eq_false_iff_not] at hd
+    exact hd this
+  · rfl
+
+/-- T `resolve_available_partial` (the property, for the whole resolution): when two or more architectures
+are resolved together — `self` any of them, `u` its universe, ANY configuration over `u` (provider order,
+install_if loop variant, `bothBad`), any world — and the install_if expansion appended nothing, the
+driver's availability oracle finds nothing: every member exists with the same name and version on every
+other requested architecture.  No hypothesis on ids, on the other universes or on the names of the
+architectures is needed (`lookupT` fixes which entry is `self`; entries with the same name are skipped by
+`disqualifyDifference` and by the oracle alike). -/
+theorem resolve_available_partial (archs : List (Text × Universe)) (self : Text) (u : Universe)
+    (hl : archs.length ≠ 1) (hu : lookupT archs self = some u) (c : Cfg) (hc : c.u = u)
+    (w : List Text) (r : Resolution)
+    (h : resolve c w (disqualifyDifference archs self) = .ok r) (hf : "F02b" ∉ r.flags) :
+    Driver.Resolver.firstUnavailable archs self r.install = none := by
+  rw [firstUnavailable_none_iff]
+  intro p hp
+  have hpu : p ∈ u.all := hc ▸ C02.resolve_subset c w _ r h p hp
+  exact available_of_not_dq archs self u hl hu hpu (resolve_avoids_dq c w _ r h hf p hp)
+
+/-- T `unavailable_is_F14a`: with no hypothesis on the flags — whatever the oracle reports on the model's own
+answer carries an install_if rule (and "F02b" was raised), so the class the driver attaches
+(`if !p.installIf.isEmpty then "F14a" else "unlisted"`) is the listed finding F14a, never `unlisted`. -/
+theorem unavailable_is_F14a (archs : List (Text × Universe)) (self : Text) (u : Universe)
+    (hl : archs.length ≠ 1) (hu : lookupT archs self = some u) (c : Cfg) (hc : c.u = u)
+    (w : List Text) (r : Resolution)
+    (h : resolve c w (disqualifyDifference archs self) = .ok r) {p : Pkg} {a : Text}
+    (hun : Driver.Resolver.firstUnavailable archs self r.install = some (p, a)) :
+    "F02b" ∈ r.flags ∧ (!p.installIf.isEmpty) = true := by
+  obtain ⟨hp, other, hm, hne, hav⟩ := firstUnavailable_some hun
+  have hpu : p ∈ u.all := hc ▸ C02.resolve_subset c w _ r h p hp
+  rcases resolve_avoids_dq_or_installIf c w _ r h p hp with h1 | ⟨h1, h2⟩
+  · have := available_of_not_dq archs self u hl hu hpu h1 a other hm hne
+    rw [hav] at this
+    exact absurd this (by simp)
+  · exact ⟨h1, by simpa [List.isEmpty_iff] using h2⟩
+
+/-- the full statement of the property for the whole resolution (FALSE on the unchanged tree: F14a) -/
+def resolve_available : Prop :=
+  ∀ (archs : List (Text × Universe)) (self : Text) (u : Universe), archs.length ≠ 1 →
+    lookupT archs self = some u → ∀ (c : Cfg), c.u = u → ∀ (w : List Text) (r : Resolution),
+      resolve c w (disqualifyDifference archs self) = .ok r →
+      Driver.Resolver.firstUnavailable archs self r.install = none
+
+/-- the negation of the full statement, from the F14a witness -/
+theorem not_resolve_available : ¬ resolve_available := by
+  intro h
+  have hw := F14a_witness
+  split at hw
+  · next r hr =>
+    have hn := h famF14a "x86_64".toList x86 (by decide) rfl _ rfl _ r hr
+    rw [firstUnavailable_none_iff] at hn
+    simp only [List.any_eq_true, Bool.not_eq_true'] at hw
+    obtain ⟨p, hp, hav⟩ := hw
+    have := hn p hp "aarch64".toList arm (List.mem_cons_of_mem _ (List.mem_cons_self ..)) (by decide)
+    rw [hav] at this
+    exact absurd this (by simp)
+  · simp at hw
+
+/-- T `single_arch_unaffected`: `dq_single` lifted to the resolution — with exactly one architecture the
+resolver runs as if the cross-architecture filtering did not exist (same answer, same error, same flags) -/
+theorem single_arch_unaffected (archs : List (Text × Universe)) (self : Text) (h : archs.length = 1)
+    (c : Cfg) (w : List Text) :
+    resolve c w (disqualifyDifference archs self) = resolve c w [] := by
+  rw [dq_single archs self h]
+
+/-! ### non-vacuity: all hypotheses of `resolve_available_partial` are met by a run in which the filter matters -/
+
+/-- `lib-2` exists on architecture `a` only -/
+def archA : Universe := [⟨[], "r/a".toList,
+  [C02.mk 0 "lib" "1" [] [] [], C02.mk 1 "lib" "2" [] [] [], C02.mk 2 "top" "1" ["lib"] [] []]⟩]
+def archB : Universe := [⟨[], "r/b".toList,
+  [C02.mk 0 "lib" "1" [] [] [], C02.mk 1 "top" "1" ["lib"] [] []]⟩]
+def famOk : List (Text × Universe) := [("a".toList, archA), ("b".toList, archB)]
+
+/-- the ids installed and the flags raised, `none` on error -/
+def runIds (u : Universe) (w : List String) (dq0 : List Nat) : Option (List Nat × List String) :=
+  match resolve (Driver.Resolver.cfgOf u) (w.map String.toList) dq0 with
+  | .ok r => some (r.install.map (·.id), r.flags)
+  | _ => none
+
+/-- resolved together, `a` succeeds flag-free with the OLDER build `lib-1` (id 0); alone it takes `lib-2` -/
+example : famOk.length ≠ 1 ∧ lookupT famOk "a".toList = some archA ∧
+    (Driver.Resolver.cfgOf archA).u = archA ∧
+    runIds archA ["top"] (disqualifyDifference famOk "a".toList) = some ([0, 2], []) ∧
+    runIds archA ["top"] [] = some ([1, 2], []) ∧
+    runIds archB ["top"] (disqualifyDifference famOk "b".toList) = some ([0, 1], []) := by
+  refine ⟨by decide, rfl, rfl, ?_, ?_, ?_⟩ <;>
+  · set_option maxRecDepth 100000 in decide
+
+/-- … and the theorem applies to that run -/
+example (r : Resolution)
+    (h : resolve (Driver.Resolver.cfgOf archA) ["top".toList] (disqualifyDifference famOk "a".toList) = .ok r)
+    (hf : "F02b" ∉ r.flags) : Driver.Resolver.firstUnavailable famOk "a".toList r.install = none :=
+  resolve_available_partial famOk "a".toList archA (by decide) rfl _ rfl _ r h hf
+
+/-- the F14a run raises "F02b": the flag hypothesis is exactly what separates it -/
+example : runIds x86 ["top"] (disqualifyDifference famF14a "x86_64".toList) = some ([0, 2, 1], ["F02b"]) := by
+  set_option maxRecDepth 100000 in decide
 
 end Apko.C14
